@@ -10,8 +10,13 @@
 #include <setjmp.h>
 #include <stddef.h>
 #include <pthread.h>
+#ifdef XC_SO
+#include <dlfcn.h>
+#include "crypt.h"
+#else
 #include "crypt-port.h"
 #include "crypt.h"
+#endif
 
 /* ---------- abort / assert interception ---------- */
 static __thread jmp_buf * volatile abort_jmp;
@@ -30,7 +35,11 @@ static unsigned char os_bytes[512];
 static size_t os_len, os_pos;
 static int os_real;            /* 1: use the real CSPRNG */
 static unsigned long os_calls;
+#ifdef XC_SO
+static void __real_arc4random_buf (void *b, size_t n) { (void)b; (void)n; }
+#else
 extern void __real_arc4random_buf (void *, size_t);
+#endif
 void __wrap_arc4random_buf (void *buf, size_t n)
 {
   os_calls++;
@@ -92,7 +101,12 @@ static int split (char *line, char **tok)
 
 #include "ops_gensalt.h"
 #include "ops_crypt.h"
+#ifdef XC_SO
+#include "ops_so.h"
+static int op_prim_dispatch (int n, char **tok) { return op_so_dispatch (n, tok); }
+#else
 #include "ops_prim.h"
+#endif
 
 int main (int argc, char **argv)
 {
